@@ -314,7 +314,9 @@ def main():
                 sys.stdout.flush()
                 if el > budget or agg.violations or agg.harness:
                     break
-    except Exception as e:  # worker death, time-out
+    except KeyboardInterrupt:
+        raise
+    except BaseException as e:  # worker death, time-out, anything escaping from a worker
         harness_problems.append("batch execution failed: %r" % (e,))
 
     for h in agg.harness[:5]:
